@@ -770,10 +770,15 @@ func CanonicalIsomorphAllocated(n, m int, neighbours [][]int, op *CanonicalOrder
 				//Do the same for the currentBest unless we are also on the path to the first leaf. The orbits of the first leaf contain the orbits of the current best and the representatives (roots) of the two sets of orbits differ, so skipping the non-roots of both can skip every vertex of an orbit.
 				//Heuristic 2
 				if count > 0 && !ints.HasPrefix(firstLeafPath, path[:len(path)-1]) && ints.HasPrefix(currentBestPath, path[:len(path)-1]) {
-					if currentBestOrbits[choiceElement] >= 0 {
-						verifCanonVertex("prune", len(path)-1, 2, choiceElement)
-						skipDeage = true
-						continue jLoop
+					//The orbits of the current best are started afresh whenever a better leaf is found so, unlike the orbits of the first leaf, their roots are not stable and a vertex skipped as a non-root earlier can be the root now. Skip a vertex only if a vertex of its orbit has already been considered at this node, which are the later vertices of the bin.
+					binEnd := op.binDividers[op.inCell[choiceElement]]
+					root := currentBestOrbits.FindBuffered(choiceElement, space)
+					for k := choicePosition + 1; k < binEnd; k++ {
+						if currentBestOrbits.FindBuffered(op.order[k], space) == root {
+							verifCanonVertex("prune", len(path)-1, 2, choiceElement)
+							skipDeage = true
+							continue jLoop
+						}
 					}
 				}
 
